@@ -3,7 +3,7 @@
 # violation signatures with one description each, for maintaining known_findings.json.
 set -u
 cd "$(dirname "$0")/harness" || exit 3
-RUSTFLAGS="--cfg samlang_verif" cargo build --release --offline --no-default-features --features exec --bin c09 >/dev/null 2>&1 || { echo build failed; exit 3; }
+RUSTFLAGS="--cfg samlang_verif" cargo build --release --offline --bin c09 >/dev/null 2>&1 || { echo build failed; exit 3; }
 for spec in "$@"; do
   tier="${spec%%:*}"; seed="${spec##*:}"
   VERIF_SEED=$seed ./target/release/c09 "$tier" 2>/dev/null | grep -A2 '^VIOLATION' | grep -E 'signature:|what:' | paste - - | sed 's/^ *signature: //; s/\t *what: /\t/'
